@@ -93,12 +93,12 @@ struct Family {
 fn families(tier: Tier) -> Vec<Family> {
     match tier {
         Tier::Quick => vec![
-            Family { name: "ab-space-e", sigma: vec!['a', ' ', 'é'], m: 4, k: 2, w: 4, h: 3 },
+            Family { name: "ab-space-e-nbsp", sigma: vec!['a', ' ', 'é', '\u{a0}'], m: 4, k: 2, w: 4, h: 3 },
             Family { name: "a-space-long", sigma: vec!['a', ' '], m: 9, k: 1, w: 5, h: 2 },
             Family { name: "three-lines", sigma: vec!['a', ' '], m: 3, k: 3, w: 3, h: 2 },
         ],
         Tier::Thorough => vec![
-            Family { name: "five-chars", sigma: vec!['a', 'b', ' ', 'é', '漢'], m: 4, k: 2, w: 5, h: 3 },
+            Family { name: "six-chars", sigma: vec!['a', 'b', ' ', 'é', '漢', '\u{a0}'], m: 4, k: 2, w: 5, h: 3 },
             Family { name: "a-space-3lines", sigma: vec!['a', ' '], m: 6, k: 3, w: 5, h: 3 },
             Family { name: "a-space-long", sigma: vec!['a', ' '], m: 14, k: 1, w: 7, h: 3 },
             Family { name: "four-lines", sigma: vec!['a', ' '], m: 3, k: 4, w: 4, h: 3 },
@@ -197,7 +197,46 @@ pub fn run(ctx: &Ctx) -> Report {
             t0.elapsed().as_secs_f64()
         );
     }
-    rep.rule = "every text of <=k lines of length 0..=m over the alphabet, joined by CR LF, fed whole and per char to an unlimited-scrollback terminal of every width 1..W and height 1..H; oracle: text() and TextUnwrapper(lines()) equal the right-trimmed input lines (trailing empty lines ignored), hence equal across widths; non-trivial = runs where a line is longer than the width or there are more lines than rows".into();
+    // every printable Unicode scalar survives the trip, alone and inside a wrapped line
+    {
+        let t0 = Instant::now();
+        let all: Vec<u32> = (0x20u32..=0x10FFFF).filter(|c| !(0x7f..0xa0).contains(c) && char::from_u32(*c).is_some()).collect();
+        let bad: Vec<(u32, usize, String)> = all
+            .par_iter()
+            .filter_map(|&cp| {
+                let ch = char::from_u32(cp).unwrap();
+                let line: String = ['x', ch, 'y', ch, 'z'].iter().collect();
+                for w in [1usize, 2, 3, 7] {
+                    let err = match guarded(|| check_one(&[line.clone()], w, 2, w % 2 == 1)) {
+                        Ok(Ok(_)) => None,
+                        Ok(Err(e)) => Some(e),
+                        Err(m) => Some(format!("panic: {}", m)),
+                    };
+                    if let Some(e) = err {
+                        return Some((cp, w, e));
+                    }
+                }
+                None
+            })
+            .collect();
+        let runs = all.len() as u64 * 4;
+        rep.transitions += runs;
+        rep.evaluations += runs;
+        rep.traces_validated += runs;
+        rep.distinct_nontrivial += runs;
+        rep.parts.push(json!({"part":"every-printable-scalar","scalars":all.len(),"runs":runs,"violating":bad.len(),"wall_s":t0.elapsed().as_secs_f64()}));
+        println!("part every-printable-scalar: {} runs, {} violating ({:.1}s)", runs, bad.len(), t0.elapsed().as_secs_f64());
+        for (cp, w, e) in bad.iter().take(3) {
+            let ch = char::from_u32(*cp).unwrap();
+            let line: String = ['x', ch, 'y', ch, 'z'].iter().collect();
+            emit_violation(ctx, &mut rep, "C09", json!({"part":"every-printable-scalar","lines":[line],"cols":w,"rows":2,"per_char": w % 2 == 1,
+                "scalar": cp, "oracle":"text-reproduced","observed":e}));
+        }
+        if bad.len() > 3 {
+            rep.violations += bad.len() as u64 - 3;
+        }
+    }
+    rep.rule = "every text of <=k lines of length 0..=m over the alphabet, joined by CR LF, fed whole and per char to an unlimited-scrollback terminal of every width 1..W and height 1..H; oracle: text() and TextUnwrapper(lines()) equal the right-trimmed input lines (trailing empty lines ignored), hence equal across widths; plus the line x?y?z for every printable Unicode scalar ? at widths 1,2,3,7; non-trivial = runs where a line is longer than the width or there are more lines than rows".into();
     rep.assumptions = vec!["characters limited to the listed alphabets; every char occupies one cell in avt".into()];
     rep
 }
